@@ -296,6 +296,24 @@ func cmdCheck(eng *Engine, args []string) int {
 		}
 	}
 	nUnitOb := nOb
+	// contracts whose function no longer exists under that name (renamed, turned into a method, removed): everything the
+	// contract carried for this property is undecided
+	for _, m := range eng.missing {
+		props := append([]string{}, m.c.Props...)
+		for _, cl := range m.c.Clauses {
+			props = append(props, cl.Props...)
+		}
+		if m.c.Parent != nil {
+			props = append(props, m.c.Parent.Props...)
+		}
+		if len(props) == 0 {
+			props = safetyProps
+		}
+		if hasProp(props, id) || id == "C01" || id == "C06" {
+			nOb++
+			violation(m.c.Pkg[strings.LastIndex(m.c.Pkg, "/")+1:]+"."+m.c.Target+"/contract-target-missing", "the function this contract is written for does not exist any more under that name; its obligations are undecided:\n"+m.msg+"\n", true)
+		}
+	}
 	// finite-domain obligations (complete evaluation of the real code)
 	scanResults := append(append(eng.finiteDomain(id, tmp), eng.confinedChecks(id)...), eng.mapOrderChecks(id)...)
 	scanResults = append(scanResults, eng.errDynTypeChecks(id)...)
@@ -396,6 +414,8 @@ func cmdCheck(eng *Engine, args []string) int {
 			as = append(as, "definitional axiom of an abstract predicate, "+strings.TrimSpace(a[6:]))
 		} else if strings.HasPrefix(a, "GLOBALINV ") {
 			as = append(as, "package-level variable initialised once and never reassigned: "+strings.TrimSpace(a[10:]))
+		} else if strings.HasPrefix(a, "STDPURE ") {
+			as = append(as, "standard-library function without a declared contract, assumed side-effect-free and panic-free, result unconstrained: "+a[8:])
 		} else if strings.HasPrefix(a, "ASSUMESAFE ") {
 			as = append(as, "absence of run-time panics in the body of "+a[11:]+" is assumed (attr assumesafe: the unit is verified for frame/postconditions only)")
 		} else if strings.HasPrefix(a, "REPEAT ") {
